@@ -31,6 +31,9 @@ type H struct {
 	stats map[string]int
 	epoch string
 	pools map[string][]string
+	recs     []evalRec
+	poolPtrs map[interface{}]bool
+	fnN      int
 }
 
 type poolVar struct {
@@ -97,6 +100,8 @@ func (h *H) freshPool() {
 		h.mustEval("(def " + p.name + " " + p.src + ")")
 		defs = append(defs, "(def "+p.name+" "+p.src+")")
 	}
+	h.installRec()
+	h.collectPoolPtrs()
 	h.envN++
 	h.epoch = fmt.Sprintf("E%d", h.envN)
 	h.pools[h.epoch] = defs
@@ -491,6 +496,8 @@ func (h *H) sqCase(t *T, extra ...string) {
 			h.out.Case("sq:ctx|"+h.epoch+" "+src2+"|"+a+"|"+vtok2+binds, impl2, nontrivial, append(tags, "route-ctx")...)
 		}
 	}
+	// route 4: evaluated twice with in-place updates of the first result in between
+	h.twiceCase(t, a, binds, nontrivial, tags)
 	// route 3: the form built with the Go constructors (the only route for hash templates)
 	if hasHash || h.rng.Intn(3) == 0 {
 		form := t.Reified().Sexp(h.env)
@@ -620,6 +627,12 @@ func (h *H) replay(path string) {
 	d := &depthRec{}
 	d.install(h.env)
 	impl := "NO-PROGRAM"
+	if strings.HasPrefix(rp.Input, "sq:twice|") && len(rp.Program) > 0 {
+		n := len(rp.Program)
+		impl = h.replayTwice(rp.Input, rp.Program[:n-1], rp.Program[n-1])
+		h.out.Case(rp.Input, impl, true, "replay")
+		return
+	}
 	for i, line := range rp.Program {
 		if strings.HasPrefix(line, "; template built with Go constructors") {
 			f := strings.Split(rp.Input, "|")
